@@ -33,6 +33,11 @@ type Opts struct {
 	Display    bool
 	WildIDs    bool // IDs outside the meta-schema's idType (C04 only)
 	Unsat      bool // allow unsatisfiable bound combinations (min > max)
+	// Describable keeps to what the meta-schema can express (no TypedStringEnumSchema[T], which has no type ID of
+	// its own in the value-type table).
+	Describable bool
+	// ScopeRoot forces the root to be a scope.
+	ScopeRoot bool
 }
 
 // Full enables every feature.
@@ -80,6 +85,11 @@ func (c *ctx) id(prefix string) string {
 
 func (c *ctx) display(label string) *spec.DisplaySpec {
 	if !c.o.Display || rapid.IntRange(0, 2).Draw(c.t, "hasDisplay"+label) != 0 {
+		if c.o.Describable && label == "enum" {
+			// the meta-schema stores a Display object per enum value: a nil *DisplayValue has no description
+			// (all of the SDK's own uses pass a non-nil value); an empty one does
+			return &spec.DisplaySpec{}
+		}
 		return nil
 	}
 	d := &spec.DisplaySpec{}
@@ -150,7 +160,7 @@ func Spec(o Opts) *rapid.Generator[*spec.Spec] {
 
 // top generates the root: a scope when references/objects are on (most of the time), else any node.
 func (c *ctx) top() *spec.Spec {
-	if (c.o.Objects || c.o.Structs) && rapid.IntRange(0, 3).Draw(c.t, "topScope") != 0 {
+	if c.o.ScopeRoot || (c.o.Objects || c.o.Structs) && rapid.IntRange(0, 3).Draw(c.t, "topScope") != 0 {
 		return c.scope(0)
 	}
 	return c.node(0, nil)
@@ -264,7 +274,13 @@ func (c *ctx) kind(k string, depth int) *spec.Spec {
 }
 
 func (c *ctx) keySpec() *spec.Spec {
-	switch rapid.IntRange(0, 4).Draw(c.t, "keyKind") {
+	k := rapid.IntRange(0, 4).Draw(c.t, "keyKind")
+	if c.o.Describable && (k == 1 || k == 2) {
+		// the meta-schema's key-type table only has integer and string
+		ev.Class("pruned_enum_map_key_not_describable", 1)
+		k = 3
+	}
+	switch k {
 	case 0:
 		s := &spec.Spec{Kind: spec.KInt}
 		s.Min, s.Max = c.intBounds(-1000, 1000)
@@ -327,7 +343,7 @@ func (c *ctx) nodeFor(depth int, gt reflect.Type) *spec.Spec {
 		}
 		return c.kind(spec.KString, depth)
 	case gt == typeMyStr:
-		if rapid.Bool().Draw(c.t, "myStrAsString") {
+		if c.o.Describable || rapid.Bool().Draw(c.t, "myStrAsString") {
 			return c.kind(spec.KString, depth)
 		}
 		return c.kind(spec.KTypedEnumS, depth)
@@ -576,9 +592,9 @@ func relax(s *spec.Spec) {
 	case spec.KFloat:
 		s.FMin, s.FMax = nil, nil
 	case spec.KEnumS, spec.KTypedEnumS:
-		s.Enum = append(s.Enum, spec.EnumVal{S: ""})
+		s.Enum = append(s.Enum, spec.EnumVal{S: "", Display: &spec.DisplaySpec{}})
 	case spec.KEnumI:
-		s.Enum = append(s.Enum, spec.EnumVal{I: 0})
+		s.Enum = append(s.Enum, spec.EnumVal{I: 0, Display: &spec.DisplaySpec{}})
 	}
 }
 
@@ -890,18 +906,18 @@ func (c *ctx) oneOf(k string, depth int) *spec.Spec {
 			if k == spec.KOneOfS {
 				dt = &spec.Spec{Kind: spec.KString}
 				if rapid.Bool().Draw(c.t, "discEnum") {
-					dt = &spec.Spec{Kind: spec.KEnumS, Enum: []spec.EnumVal{{S: m.KeyS}}}
+					dt = &spec.Spec{Kind: spec.KEnumS, Enum: []spec.EnumVal{{S: m.KeyS, Display: &spec.DisplaySpec{}}}}
 				}
 			} else {
 				dt = &spec.Spec{Kind: spec.KInt}
 				if rapid.Bool().Draw(c.t, "discEnum") {
-					dt = &spec.Spec{Kind: spec.KEnumI, Enum: []spec.EnumVal{{I: m.KeyI}}}
+					dt = &spec.Spec{Kind: spec.KEnumI, Enum: []spec.EnumVal{{I: m.KeyI, Display: &spec.DisplaySpec{}}}}
 				}
 			}
 			obj.Props = append(obj.Props, spec.Prop{Name: s.Discriminator, Type: dt, Required: rapid.Bool().Draw(c.t, "discRequired")})
 		}
 		// a member may be wrapped in its own scope
-		if c.o.Refs && depth+2 < c.o.MaxDepth && rapid.IntRange(0, 5).Draw(c.t, "memberScope") == 0 {
+		if c.o.Refs && depth+1 < c.o.MaxDepth && rapid.IntRange(0, 3).Draw(c.t, "memberScope") == 0 {
 			m.Type = &spec.Spec{Kind: spec.KScope, Root: obj.ID, Objects: []*spec.Spec{obj}}
 		}
 		s.Members = append(s.Members, m)
